@@ -30,8 +30,8 @@ func (i *InitIndexPlanner) Process(ctx *shared.PlannerContext) (sql.ISelect, err
 		sql.NewSimpleCol("any(timestamp_ns)", "timestamp_ns")).
 		From(sql.NewSimpleCol(table, "traces_idx")).
 		AndWhere(sql.And(
-			sql.Ge(sql.NewRawObject("date"), sql.NewStringVal(ctx.From.Format("2006-01-02"))),
-			sql.Le(sql.NewRawObject("date"), sql.NewStringVal(ctx.To.Format("2006-01-02"))),
+			sql.Ge(sql.NewRawObject("date"), sql.NewStringVal(ctx.From.UTC().Format("2006-01-02"))),
+			sql.Le(sql.NewRawObject("date"), sql.NewStringVal(ctx.To.UTC().Format("2006-01-02"))),
 			sql.Ge(sql.NewRawObject("traces_idx.timestamp_ns"), sql.NewIntVal(ctx.From.UnixNano())),
 			sql.Lt(sql.NewRawObject("traces_idx.timestamp_ns"), sql.NewIntVal(ctx.To.UnixNano())),
 		)).GroupBy(sql.NewRawObject("trace_id"), sql.NewRawObject("span_id")).
